@@ -195,9 +195,9 @@ def run(ctx):
     for name, data in probes('C19'):
         ctx.count('probe'); one(ctx, data, {'features': ['probe:' + name, 'table'], 'stats': {'rPr': 2}})
     import random as _random
-    for k in range(60 if ctx.quick else 5000):
+    for k in range(60 if ctx.quick else 2500):
         one_ragged(ctx, ragged_table(_random.Random(f'C19-ragged-{ctx.seed}-{k}')))
-    n = 60 if ctx.quick else 5000
+    n = 60 if ctx.quick else 2500
     for pkg, meta, rng in stream(ctx, PROF, n):
         one(ctx, pkg.to_bytes(), meta)
         if ctx.evaluations % 20 == 1: ctx.sample({'body': meta['body'][:700], 'features': meta['features']})
